@@ -4,10 +4,14 @@ import importlib.util, json, os, sys
 HERE = os.path.dirname(os.path.dirname(os.path.abspath(__file__)))
 sys.path.insert(0, HERE)
 checks = []
+# only properties the lead has accepted (check exits 0 on the unchanged tree) are claimed
+CLAIMED = set(open(os.path.join(HERE, "tools", "claimed.txt")).read().split())
 for fn in sorted(os.listdir(os.path.join(HERE, "props"))):
     if not fn.endswith(".py"):
         continue
     pid = fn[:-3]
+    if pid not in CLAIMED:
+        continue
     spec = importlib.util.spec_from_file_location("p_" + pid, os.path.join(HERE, "props", fn))
     mod = importlib.util.module_from_spec(spec)
     spec.loader.exec_module(mod)
